@@ -386,6 +386,38 @@ def _parse_answers(out, res):
         res[i] = r
 
 
+SKIPS = {}      # (executable's last path parts, op) -> [answers, {skip reason: count}]
+# skips that say "this case has nothing to observe by construction" (an enum with payloads has no `as isize`
+# discriminant; an item generated without the schema derive; an array length the harness has no instance for)
+DESIGNED_SKIPS = ('no-discr', 'no-schema-derive', 'unsupported-length', 'unsupported-shape')
+SKIP_FLOOR = (40, 0.25)     # an op with at least 40 answers of which more than a quarter are other skips decides too little
+
+
+def _count_skips(exe, lines, res):
+    tag = '/'.join(str(exe).split('/')[-3:])
+    for l in lines:
+        f = l.split('\t', 2)
+        c = SKIPS.setdefault((tag, f[1] if len(f) > 1 else '?'), [0, {}])
+        c[0] += 1
+        r = res.get(f[0]) or ''
+        if r.startswith('skip'):
+            why = (r.split(' ', 2) + ['?'])[1].split('\t')[0]
+            c[1][why] = c[1].get(why, 0) + 1
+
+
+def skip_report():
+    """({op@exe: {answers, skipped: {reason: n}}} for every op some answer of which was a skip, [ops over the floor])"""
+    rep, over = {}, []
+    for (tag, op), (n, why) in sorted(SKIPS.items()):
+        if not why:
+            continue
+        rep['%s@%s' % (op, tag)] = {'answers': n, 'skipped': dict(why)}
+        other = sum(k for r, k in why.items() if r not in DESIGNED_SKIPS)
+        if n >= SKIP_FLOOR[0] and other > SKIP_FLOOR[1] * n:
+            over.append('%s@%s: %d of %d answers were skips (%s)' % (op, tag, other, n, why))
+    return rep, over
+
+
 def run_cases(exe, lines, shards=NPROC):
     """lines: list of TAB-separated case lines (first field = case id).  Returns {id: result-string}.
     EVERY id gets an answer: when a child process dies (or times out) its unanswered lines are run again one per
@@ -415,6 +447,7 @@ def run_cases(exe, lines, shards=NPROC):
             if cid not in res:
                 budget -= 1
                 res[cid] = 'child-died ' + (w1 or why)[:200]
+    _count_skips(exe, lines, res)
     return res
 
 
@@ -489,6 +522,11 @@ def conclude(pid, tier, seed, t0, coq, stats, disagreements, failures, search=No
         still = [f for f in failures if f.get('known') and cls and f.get('class') == cls.group(1)]
         if still:
             print('KNOWN-FINDING: property=%s %s' % (pid, k.split(' ', 2)[-1]))
+    skipped, over = skip_report()
+    stats = dict(stats)
+    stats['answers_skipped_by_harness'] = skipped
+    for o in over:
+        disagreements.append({'what': 'the harness skipped too many cases for the stage to decide anything: ' + o})
     broken = []
     if not coq.get('ok'):
         broken.append('proof: ' + '; '.join(coq.get('problems', [])[:4]) + ((' at ' + coq['failed_at']) if coq.get('failed_at') else ''))
